@@ -248,7 +248,9 @@ def _issue_sync(clients: Dict[str, Any], op: Dict[str, Any]) -> List[Tuple[str, 
 def fam_sync(w: World) -> None:
     ch = w.ch
     passthrough = bool(ch.draw(2, 'passthrough'))
-    ops = _draw_ops(ch, 1 + ch.draw(10, 'n_ops'), MockerModel(passthrough))
+    pre = MockerModel(passthrough)
+    pre.reentrant = True      # the synchronous transport lets a callback call the client again: see the same queues
+    ops = _draw_ops(ch, 1 + ch.draw(10, 'n_ops'), pre)
     w.scenario = {'passthrough': passthrough, 'ops': ops, 'variant': 'sync'}
     w.nontrivial = len(ops) >= 2
     ctx = {'variant': 'sync', 'passthrough': passthrough}
